@@ -59,6 +59,7 @@ import (
 	"fmt"
 	"io"
 	"log"
+	"math"
 	"net"
 	"net/http"
 	"net/http/httptest"
@@ -589,6 +590,8 @@ type c28Env struct {
 	seq       int
 	caught    int
 	caughtWhy string
+	cheap     bool // the vector ran nothing but a sampler decision: no barrier, no liveness probe
+	cfgCache  map[string]config.Config
 }
 
 func (e *c28Env) record(outcome, why, detail string) {
@@ -745,6 +748,8 @@ const c28BaseRules = "RulesVersion: 2\nSamplers:\n  __default__:\n    RulesBased
 	"        - Name: errors\n          SampleRate: 1\n          Conditions:\n            - Field: ok\n              Operator: \"=\"\n              Value: false\n              Datatype: bool\n" +
 	"        - Name: slow\n          Scope: span\n          SampleRate: 2\n          Conditions:\n            - Fields: [dur, root.dur]\n              Operator: \">\"\n              Value: 100\n" +
 	"            - Field: name\n              Operator: matches\n              Value: \"^c28\"\n" +
+	"        - Name: tagged\n          SampleRate: 1\n          Conditions:\n            - Field: tags\n              Operator: \"=\"\n              Value: [checkout, payments]\n" +
+	"        - Name: nested\n          Scope: span\n          SampleRate: 1\n          Conditions:\n            - Fields: [nest, root.tags]\n              Operator: \">=\"\n              Value: [1]\n" +
 	"        - Name: rest\n          Sampler:\n            DynamicSampler:\n              SampleRate: 2\n              ClearFrequency: 1h\n              FieldList: [svc, root.kind, dur, nest, tags]\n"
 
 func (e *c28Env) load(mainYAML, rulesYAML string) (config.Config, error) {
@@ -787,7 +792,7 @@ func c28NewEnv() (*c28Env, error) {
 	if err != nil {
 		return nil, err
 	}
-	e := &c28Env{dir: dir, thorough: os.Getenv("VERIF_TIER") == "thorough", urls: map[string]string{}}
+	e := &c28Env{dir: dir, thorough: os.Getenv("VERIF_TIER") == "thorough", urls: map[string]string{}, cfgCache: map[string]config.Config{}}
 	e.seed, _ = strconv.Atoi(os.Getenv("VERIF_SEED"))
 	e.honey = httptest.NewServer(http.HandlerFunc(func(w http.ResponseWriter, req *http.Request) {
 		io.Copy(io.Discard, req.Body)
@@ -1476,8 +1481,49 @@ func c28CondValue(valk string) (string, bool) {
 		return `"("`, true
 	case "emptystr":
 		return `""`, true
+	case "nestedlist":
+		return "[[c28svc, other], [12]]", true
+	case "map":
+		return "{c28svc: 12}", true
 	}
 	return "", false
+}
+
+// c28FieldValues: the value classes of the span field that a rule condition or a sampler key reads
+var c28FieldValues = []string{"fv-str", "fv-emptystr", "fv-int", "fv-hugenum", "fv-float", "fv-nan", "fv-bool", "fv-nil", "fv-array",
+	"fv-nestedarray", "fv-emptyarray", "fv-map", "fv-absent"}
+
+// c28FieldValue returns the value of class fv (absent = false).
+func c28FieldValue(fv string) (any, bool, error) {
+	switch fv {
+	case "", "-", "fv-str":
+		return "c28svc", true, nil
+	case "fv-emptystr":
+		return "", true, nil
+	case "fv-int":
+		return int64(12), true, nil
+	case "fv-hugenum":
+		return c28U64(math.MaxUint64), true, nil
+	case "fv-float":
+		return 1.5, true, nil
+	case "fv-nan":
+		return math.NaN(), true, nil
+	case "fv-bool":
+		return true, true, nil
+	case "fv-nil":
+		return nil, true, nil
+	case "fv-array":
+		return []any{"c28svc", "other"}, true, nil
+	case "fv-nestedarray":
+		return []any{[]any{"c28svc", "other"}, []any{int64(12)}}, true, nil
+	case "fv-emptyarray":
+		return []any{}, true, nil
+	case "fv-map":
+		return c28Map{{"c28svc", int64(12)}}, true, nil
+	case "fv-absent":
+		return nil, false, nil
+	}
+	return nil, false, fmt.Errorf("unknown field-value class %q", fv)
 }
 
 // c28RulesYAML renders the rules file of a configuration vector.
@@ -1567,6 +1613,9 @@ func c28RulesYAML(v map[string]any) (string, error) {
 			choice = "{RulesBasedSampler: {CheckNestedFields: true, Rules: " + rules + "}}"
 		}
 	default:
+		if param == "KeyFieldValue" { // the sampler as it is; the class is in the probe trace's key fields
+			param = "-"
+		}
 		s, err := c28SamplerYAML(sampler, param, val)
 		if err != nil {
 			return "", err
@@ -1580,18 +1629,37 @@ func c28RulesYAML(v map[string]any) (string, error) {
 	return "RulesVersion: 2\nSamplers:\n  __default__: " + choice + "\n  " + c28EnvName + ": " + choice + "\n", nil
 }
 
-// probe trace: a root and a child span whose payloads went through the real unmarshalling
-func (e *c28Env) probeTrace() *types.Trace {
+// probe trace: a root and a child span whose payloads went through the real unmarshalling; the
+// fields that rule conditions and sampler keys read (svc, kind, dur - also as root.dur, root.kind)
+// hold a value of class fv
+func (e *c28Env) probeTrace(fv string) (*types.Trace, error) {
+	val, present, err := c28FieldValue(fv)
+	if err != nil {
+		return nil, err
+	}
 	tr := &types.Trace{TraceID: "c28probe", APIKey: c28Key, Dataset: c28Dataset, Environment: c28EnvName}
 	for i := 0; i < 2; i++ {
 		f := c28Set(c28Fields(1), "trace.trace_id", "c28probe")
 		if i == 0 {
 			f = c28Set(f, "trace.parent_id", "")
 		}
+		if fv != "" && fv != "-" {
+			var g c28Map
+			for _, kv := range f {
+				if kv.K == "svc" || kv.K == "kind" || kv.K == "dur" {
+					if !present {
+						continue
+					}
+					kv.V = val
+				}
+				g = append(g, kv)
+			}
+			f = g
+		}
 		f = c28With(f, c28KV{"", "empty-named field"})
 		p := types.NewPayload(e.cfg, nil)
 		if err := p.UnmarshalMsgpack(c28Msgp(f)); err != nil {
-			panic(err)
+			return nil, err
 		}
 		sp := &types.Span{Event: &types.Event{APIKey: c28Key, Dataset: c28Dataset, Environment: c28EnvName, Data: p}, TraceID: "c28probe", IsRoot: i == 0}
 		tr.AddSpan(sp)
@@ -1599,7 +1667,23 @@ func (e *c28Env) probeTrace() *types.Trace {
 			tr.RootSpan = sp
 		}
 	}
-	return tr
+	return tr, nil
+}
+
+// decideProbe decides one probe trace per field-value class in fvs.
+func (e *c28Env) decideProbe(fvs []string, rules string) {
+	for _, fv := range fvs {
+		tr, err := e.probeTrace(fv)
+		if err != nil {
+			e.record("harness", "", err.Error())
+			return
+		}
+		e.guarded("deciding a probe trace (SamplerFactory + sampler, as collect.makeDecision)", func() { e.decide(tr) })
+		if e.failed() {
+			e.noteInput("probe trace whose fields svc, kind, dur are of class " + fv + ", under rules file:\n" + rules)
+			return
+		}
+	}
 }
 
 func (e *c28Env) evalConfig(v map[string]any) {
@@ -1610,7 +1694,16 @@ func (e *c28Env) evalConfig(v map[string]any) {
 	}
 	var cfg config.Config
 	var lerr error
-	e.guarded("loading the configuration (config.NewConfig)", func() { cfg, lerr = e.load(c28MainYAML(e.honey.URL), rules) })
+	isCond := verifkit.Str(v, "param") == "Cond"
+	fv := verifkit.Str(v, "fv")
+	if cached, ok := e.cfgCache[rules]; ok && isCond {
+		cfg = cached // the field-value classes of one condition share its (immutable) loaded configuration
+	} else {
+		e.guarded("loading the configuration (config.NewConfig)", func() { cfg, lerr = e.load(c28MainYAML(e.honey.URL), rules) })
+		if isCond && !e.failed() {
+			e.cfgCache[rules] = cfg
+		}
+	}
 	e.mu.Lock()
 	e.count++
 	e.mu.Unlock()
@@ -1632,9 +1725,15 @@ func (e *c28Env) evalConfig(v map[string]any) {
 	// every ingest endpoint once, with a valid body, while this configuration is in force (a rule
 	// condition is only ever looked at by the sampler: one request that reaches it is enough)
 	eps := []string{"event", "batch", "peer-batch", "otlp-http-traces", "otlp-http-logs", "otlp-grpc-traces", "otlp-grpc-logs"}
-	isCond := verifkit.Str(v, "param") == "Cond"
 	if isCond {
 		eps = []string{"batch"}
+		if fv != "fv-str" {
+			// the condition's other field-value classes only differ in the probe trace: nothing but the
+			// sampler decision is run for them (and nothing that could start a goroutine)
+			e.cheap = true
+			e.decideProbe([]string{fv}, rules)
+			return
+		}
 	}
 	for i, ep := range eps {
 		encs := c28Encodings(c28Family(ep))
@@ -1667,11 +1766,13 @@ func (e *c28Env) evalConfig(v map[string]any) {
 		e.noteInput("/query/ of rules file:\n" + rules)
 		return
 	}
-	// and a probe trace decided directly (the requests above may all have been refused)
-	e.guarded("deciding a probe trace (SamplerFactory + sampler, as collect.makeDecision)", func() { e.decide(e.probeTrace()) })
-	if e.failed() {
-		e.noteInput("probe trace under rules file:\n" + rules)
+	// and probe traces decided directly (the requests above may all have been refused): the vector's
+	// own field-value class, or - where the vector has none - the plain trace and every class
+	fvs := append([]string{""}, c28FieldValues...)
+	if fv != "" && fv != "-" {
+		fvs = []string{fv}
 	}
+	e.decideProbe(fvs, rules)
 }
 
 func (e *c28Env) evalRequestOne(ep, ctype, enc string) {
@@ -1762,7 +1863,7 @@ func (e *c28Env) selfCheck() error {
 
 func (e *c28Env) eval(v map[string]any) c28Result {
 	e.mu.Lock()
-	e.fail, e.count, e.caught, e.caughtWhy = nil, 0, 0, ""
+	e.fail, e.count, e.caught, e.caughtWhy, e.cheap = nil, 0, 0, "", false
 	e.mu.Unlock()
 	switch verifkit.Str(v, "kind") {
 	case "req":
@@ -1772,8 +1873,10 @@ func (e *c28Env) eval(v map[string]any) c28Result {
 	default:
 		return c28Result{Err: fmt.Sprintf("unknown vector kind in %v", v)}
 	}
-	c28Quiesce()
-	if !e.failed() {
+	if !e.cheap {
+		c28Quiesce()
+	}
+	if !e.failed() && !e.cheap {
 		// the process is alive by construction; is the router still answering?
 		for _, t := range []string{"incoming", "peer"} {
 			if st, ok := e.send(c28Send{target: t, method: "GET", path: "/alive", label: "liveness"}); !ok || st != 200 {
